@@ -7,6 +7,7 @@ use rand::rngs::StdRng;
 use rand::Rng;
 use routee_compass::app::search::search_app_result::SearchAppResult;
 use routee_compass::plugin::output::default::summary::plugin::SummaryOutputPlugin;
+use routee_compass::plugin::output::default::traversal::plugin::TraversalPlugin;
 use routee_compass::plugin::output::default::traversal::traversal_output_format::TraversalOutputFormat;
 use routee_compass::plugin::output::default::uuid::plugin::UUIDOutputPlugin;
 use routee_compass::plugin::output::output_plugin::OutputPlugin;
@@ -102,7 +103,37 @@ fn run_scenario(out: &mut Out, scn: &Value, r: &mut StdRng) {
             },
         };
     }
-    out.event(json!({"ev": "Render", "route": route.iter().map(|e| e.edge_id.0).collect::<Vec<_>>(),
+    // the same result through the traversal output PLUGIN (as the application calls it), built from a geometry file:
+    // route and tree in the same format, and route only.  A result that cannot be rendered must make the plugin fail
+    // (the application then answers with an error), never come back with the route silently missing.
+    let gpath = scratch_dir().join("out-geoms.txt");
+    let gtxt: String = geoms
+        .iter()
+        .map(|g| format!("LINESTRING ({})\n", g.points().map(|p| format!("{} {}", p.x(), p.y())).collect::<Vec<_>>().join(", ")))
+        .collect();
+    std::fs::write(&gpath, gtxt).unwrap();
+    let probe: Result<(SearchAppResult, routee_compass_core::algorithm::search::search_instance::SearchInstance), routee_compass::app::compass::compass_app_error::CompassAppError> = Ok((
+        SearchAppResult { routes: res.routes.clone(), trees: res.trees.clone(), search_executed_time: String::from("t"), search_runtime: std::time::Duration::from_millis(1), iterations: res.iterations },
+        build_instance(scn).unwrap().si,
+    ));
+    let mut plug = json!({});
+    for (name, f) in fmts.iter() {
+        for with_tree in [true, false] {
+            let key = format!("{}{}", name, if with_tree { "" } else { "_route_only" });
+            let direct = f.generate_route_output(route, &geoms).ok();
+            plug[&key] = match TraversalPlugin::from_file(&gpath, Some(*f), if with_tree { Some(*f) } else { None }) {
+                Err(e) => json!({"built": false, "ok": false, "has_route": false, "same": false, "has_tree": false, "msg": e.to_string()}),
+                Ok(p) => {
+                    let mut o = json!({"request": {}});
+                    let r = p.process(&mut o, &probe);
+                    json!({"built": true, "ok": r.is_ok(), "has_route": o["route"].is_object(),
+                           "same": direct.is_some() && Some(&o["route"]["path"]) == direct.as_ref(),
+                           "has_tree": !o["tree"].is_null() && o.get("tree").is_some()})
+                }
+            };
+        }
+    }
+    out.event(json!({"ev": "Render", "plug": plug, "route": route.iter().map(|e| e.edge_id.0).collect::<Vec<_>>(),
                      "tree": tree.values().map(|b| b.edge_traversal.edge_id.0).collect::<Vec<_>>(),
                      "geoms": geoms.iter().map(|g| json!(pts(g))).collect::<Vec<_>>(), "out": o}));
     // identifiers and summary through the real plugins
